@@ -65,8 +65,8 @@ impl RConfig {
     pub fn quick() -> Vec<RConfig> {
         vec![
             RConfig { borrowing: false, std_feature: true, merge: false, hashmap: false, raw_strings: false },
-            RConfig { borrowing: true, std_feature: false, merge: true, hashmap: true, raw_strings: true },
-            RConfig { borrowing: true, std_feature: true, merge: true, hashmap: false, raw_strings: true },
+            RConfig { borrowing: true, std_feature: false, merge: true, hashmap: true, raw_strings: false },
+            RConfig { borrowing: true, std_feature: true, merge: false, hashmap: false, raw_strings: true },
         ]
     }
 }
